@@ -61,6 +61,13 @@ func writeLine(w io.Writer, line []byte) error {
 	if _, err := w.Write(line); err != nil {
 		return err
 	}
+	if bytes.HasSuffix(line, []byte("\r")) {
+		// the line scanners take one carriage return before the newline as part of the line terminator:
+		// a line whose content ends in a carriage return needs a second one to be read back unchanged
+		if _, err := w.Write([]byte("\r")); err != nil {
+			return err
+		}
+	}
 	if _, err := w.Write([]byte("\n")); err != nil {
 		return err
 	}
